@@ -79,8 +79,10 @@ def gen(rng, tier):
     mn = hx(" ".join(bip39.rand_phrase(rng, 12)))
     for bad in ["", "0x", "zz", "0x" + "0" * 63, "0x" + "0" * 65, "é" * 32, "0" + "é" + "0" * 61, "0x" + "é" * 32, "00" * 32 + " "]:
         cases.append(Case("cli.sign_raw %s - default %s" % (mn, hx(bad)), tags=("cli-digest",), runner="cli", meta={"via": {}}))
-    j, _ = txgen.rand_tx(rng, kind="legacy", chain=1)
     N = txgen.N
+    for dgv in (0, 1, N - 1, N, N + 1, 2 ** 256 - 1):
+        cases.append(Case("cli.sign_raw %s - default %s" % (mn, hx("0x%064x" % dgv)), tags=("cli-digest", "boundary"), runner="cli", meta={"via": {}}))
+    j, _ = txgen.rand_tx(rng, kind="legacy", chain=1)
     for r, s, v in [(0, 1, 27), (1, 0, 27), (N, 1, 27), (1, N, 28), (2 ** 256 - 1, 2 ** 256 - 1, 28), (1, 1, 0), (1, 1, 255), (N - 1, N - 1, 28)]:
         for pre in ("0x", ""):
             cases.append(Case("cli.hash_tx %s %s" % (hx(j), hx(pre + "%064x%064x%02x" % (r, s, v))), tags=("cli-signature",), runner="cli", meta={}))
